@@ -84,6 +84,29 @@ func patch7C(resp []byte, tag byte, f func(v []byte) []byte) []byte {
 	return append(chipsim.EncodeTLV(0x7C, body), sw...)
 }
 
+// drop7C removes the object with the given tag from a 7C template response.
+func drop7C(resp []byte, tag byte) []byte {
+	if len(resp) < 4 || resp[0] != 0x7C {
+		return resp
+	}
+	sw := resp[len(resp)-2:]
+	top, err := chipsim.ParseTLVs(resp[:len(resp)-2])
+	if err != nil || len(top) != 1 {
+		return resp
+	}
+	inner, err := chipsim.ParseTLVs(top[0].Value)
+	if err != nil {
+		return resp
+	}
+	var body []byte
+	for _, t := range inner {
+		if byte(t.Tag) != tag {
+			body = append(body, chipsim.EncodeTLV(t.Tag, t.Value)...)
+		}
+	}
+	return append(chipsim.EncodeTLV(0x7C, body), sw...)
+}
+
 func get7C(data []byte, tag byte) []byte {
 	top, err := chipsim.ParseTLVs(data)
 	if err != nil || len(top) != 1 {
@@ -238,6 +261,8 @@ func runPace(k paceCase) paceOutcome {
 				return append(chipsim.EncodeTLV(0x7C, chipsim.EncodeTLV(0x86, tt)), 0x90, 0x00)
 			case k.Dev == "token" && step == "token":
 				return patch7C(g, 0x86, func(v []byte) []byte { v[rnd.Intn(len(v))] ^= 1 << uint(rnd.Intn(8)); return v })
+			case k.Dev == "ecad-absent" && step == "token":
+				return drop7C(g, 0x8A)
 			case k.Dev == "ecad" && step == "token":
 				return patch7C(g, 0x8A, func(v []byte) []byte { v[rnd.Intn(len(v))] ^= 1 << uint(rnd.Intn(8)); return v })
 			}
@@ -300,8 +325,8 @@ func C04(c *core.Ctx) {
 		t := v.([]any)
 		rows = append(rows, row{core.Str(t[1]), core.Str(t[2]), core.Str(t[3]), core.Str(t[4]), t[5].(bool), t[6].(bool)})
 	}
-	if len(rows) != 30 {
-		core.Infra("C04: expected 30 scenarios, got %d", len(rows))
+	if len(rows) != 31 {
+		core.Infra("C04: expected 31 scenarios, got %d", len(rows))
 	}
 	// the design without the comparison of the two key agreement keys must show the reflection counterexample
 	if r2, err := c.TLC(core.TLCOpts{Module: "MC_Pace", Cfg: "MC_Pace_noecho.cfg", Workers: 2}); err != nil {
@@ -382,7 +407,7 @@ func C04(c *core.Ctx) {
 				}
 				c.Violation(key, fmt.Sprintf("PACE with the right password against the conforming chip did not complete (%s): %+v", k, o), rp)
 			}
-		case k.Dev == "ecad" || k.Dev == "cardsec-key":
+		case k.Dev == "ecad" || k.Dev == "ecad-absent" || k.Dev == "cardsec-key":
 			if o.cam {
 				c.Violation("C04:cam-success-with-"+k.Dev, fmt.Sprintf("chip authentication mapping reported successful (%s): %+v", k, o), rp)
 			}
